@@ -103,7 +103,13 @@ pub mod c04_origin_ax {
         ensures #[trigger] origin_of::<ConnectionErrorIncoming>(e) == ErrorOrigin::Quic(e) {}
 }
 pub use c04_origin_ax::origin_of;
-broadcast use vp_try_ax::axiom_conv_identity, c04_origin_ax::axiom_origin_internal, c04_origin_ax::axiom_origin_quic;
+pub mod c04_seq_lemmas {
+    use vstd::prelude::*;
+    pub broadcast proof fn lemma_skip0(s: Seq<u8>)
+        ensures #[trigger] s.skip(0) == s
+    { assert(s.skip(0) =~= s); }
+}
+broadcast use vp_try_ax::axiom_conv_identity, c04_origin_ax::axiom_origin_internal, c04_origin_ax::axiom_origin_quic, c04_seq_lemmas::lemma_skip0;
 
 // ------------------------------------------------------------------ shim: the transport (the adversary)
 pub mod quic {
@@ -134,7 +140,7 @@ pub mod quic {
             ensures match r { Poll::Ready(Ok(s)) => s.stops() == Seq::<u64>::empty(), _ => true };
     }
 }
-use quic::RecvStream;
+use quic::{RecvStream, SendStream};
 
 // ------------------------------------------------------------------ shim: h3::buf::BufList<Bytes> by its `Buf` contract
 // ASSUMED-FROM-UNIT: buf BufList (impl Buf for BufList<T>: remaining / chunk / advance, view = concatenation of the chunks)
@@ -247,3 +253,71 @@ impl<S: RecvStream, B> RecvStream for BufRecvStream<S, B> {
         ensures final(self).received() == old(self).received(), final(self).consumed() == old(self).consumed(),
     { unimplemented!() }
 }
+
+// ------------------------------------------------------------------ shim: FrameStream (unit frames)
+#[verifier::external_body] pub struct FrameDecoder { x: u8 }
+//@extract h3/src/frame.rs :: - :: struct FrameStream
+//@attr #[verifier::reject_recursive_types(S)]
+//@attr #[verifier::reject_recursive_types(B)]
+//@end
+impl<S, B> FrameStream<S, B> {
+    // ASSUMED-FROM-UNIT: frames FrameStream::new
+//@extract h3/src/frame.rs :: impl FrameStream<S, B> :: fn new
+//@external_body
+//@attr #[verifier::external_body]
+//@ret r
+//@sig
+        ensures r.stream == stream, r.remaining_data == 0,
+//@end
+}
+
+// ------------------------------------------------------------------ AcceptRecvStream
+//@extract h3/src/stream.rs :: - :: enum AcceptedRecvStream
+//@attr #[verifier::reject_recursive_types(S)]
+//@attr #[verifier::reject_recursive_types(B)]
+//@end
+//@extract h3/src/stream.rs :: - :: struct AcceptRecvStream
+//@attr #[verifier::reject_recursive_types(S)]
+//@attr #[verifier::reject_recursive_types(B)]
+//@end
+//@extract h3/src/stream.rs :: - :: enum StreamEnd
+//@end
+//@extract h3/src/stream.rs :: - :: enum PollTypeError
+//@end
+
+
+// ------------------------------------------------------------------ ConnectionInner and what it is made of (taken from /repo)
+#[verifier::external_body] pub struct SharedState { x: u8 }
+pub mod config {
+//@extract h3/src/config.rs :: - :: struct Config
+//@end
+//@extract h3/src/config.rs :: - :: struct Settings
+//@end
+}
+use config::Config;
+//@extract h3/src/connection.rs :: - :: struct AcceptedStreams
+//@attr #[verifier::reject_recursive_types(C)]
+//@attr #[verifier::reject_recursive_types(B)]
+//@end
+//@extract h3/src/connection.rs :: - :: struct QpackStreams
+//@attr #[verifier::reject_recursive_types(C)]
+//@attr #[verifier::reject_recursive_types(B)]
+//@end
+//@extract h3/src/connection.rs :: - :: enum GreaseStatus
+//@attr #[verifier::reject_recursive_types(S)]
+//@attr #[verifier::reject_recursive_types(B)]
+//@end
+// ghost fields (erased; no executable statement reads them):
+//   g_raised — every error the driver has passed to `handle_connection_error`, in order ("treated as a connection
+//              error of type X" = an entry Internal{code: X})
+//   g_uni    — disposition log of `poll_accept_recv` (unit uni_streams): (stream identity, what it resolved to)
+//   g_stops  — (stream identity, code) for every `stop_sending` issued on a resolved unidirectional stream
+//@extract h3/src/connection.rs :: - :: struct ConnectionInner
+//@attr #[verifier::reject_recursive_types(C)]
+//@attr #[verifier::reject_recursive_types(B)]
+//@ghost-field g_raised: Ghost<Seq<ErrorOrigin>>
+//@ghost-field g_uni: Ghost<Seq<(int, UniDisp)>>
+//@ghost-field g_stops: Ghost<Seq<(int, u64)>>
+//@end
+pub enum UniKind { Control, Push, Encoder, Decoder, WebTransportUni(u64), Unknown }
+pub enum UniDisp { ClosedEarly, Resolved(UniKind) }
